@@ -124,6 +124,10 @@ func configure(g *gen) {
 				Value: "%t.1", T: tStrList},
 			{Callee: "$.stableRoutes[]", Value: "(env.stable s %1)", T: T{"opaque", "Option ρ"}},
 		}})
+	// utils.go `parseAccept`: the media types of an Accept header, in order, parameters cut off, empty items dropped
+	// (both separators are one byte long: strings.Split is the prelude's splitOnByte, which the gostr engine compares with Go)
+	add(FnSpec{Func: "parseAccept", Lean: "parseAccept", Types: map[string]T{"[]string": tStrList},
+		Exts: []Ext{{Callee: "strings.Split", Value: "(Bytes.splitOnByte ((%2).headD 0) %1)", T: tStrList}}})
 	// rux.go: the method list as the API hands it out (`anyMethods` is the extracted fact)
 	amExt := []Ext{{Callee: "anyMethods", Value: "Rux.Facts.anyMethodsB", T: tStrList}}
 	add(FnSpec{Func: "AnyMethods", Lean: "AnyMethods", Exts: amExt})
